@@ -384,3 +384,69 @@ func (w *StoreWrite) Full(p *Program) string {
 	}
 	return p.storePrefix(p.Ex(w.Fn).E(storeVal), nil, 0) + w.Shape
 }
+
+// StoreRead is one KVStore read site (Get/Has/Iterator/prefix iterator) in scope.
+type StoreRead struct {
+	Fn    *ssa.Function
+	Ins   ssa.CallInstruction
+	Op    string // Get | Has | Iterator | ReverseIterator | PrefixIterator | ReversePrefixIterator
+	Full  string
+	Pos   token.Pos
+}
+
+var storeReadsCache []*StoreRead
+
+func (p *Program) StoreReads() []*StoreRead {
+	if storeReadsCache != nil {
+		return storeReadsCache
+	}
+	var out []*StoreRead
+	for fn := range p.AllFuncs {
+		if !inScope(fn) || len(fn.Blocks) == 0 {
+			continue
+		}
+		x := p.Ex(fn)
+		for _, cs := range p.CallsIn(fn) {
+			c := cs.Ins.Common()
+			var op string
+			var storeV, keyV ssa.Value
+			if c.IsInvoke() && isKVStoreIface(c.Value.Type()) {
+				op = c.Method.Name()
+				storeV = c.Value
+				if len(c.Args) > 0 {
+					keyV = c.Args[0]
+				}
+			} else if f := c.StaticCallee(); f != nil {
+				switch {
+				case f.Signature.Recv() != nil && isKVStoreIface(f.Signature.Recv().Type()):
+					op = f.Name()
+					storeV = c.Args[0]
+					if len(c.Args) > 1 {
+						keyV = c.Args[1]
+					}
+				case strings.HasSuffix(funcName(f), "cosmos-sdk/types.KVStorePrefixIterator"):
+					op, storeV, keyV = "PrefixIterator", c.Args[0], c.Args[1]
+				case strings.HasSuffix(funcName(f), "cosmos-sdk/types.KVStoreReversePrefixIterator"):
+					op, storeV, keyV = "ReversePrefixIterator", c.Args[0], c.Args[1]
+				default:
+					continue
+				}
+			} else {
+				continue
+			}
+			switch op {
+			case "Get", "Has", "Iterator", "ReverseIterator", "PrefixIterator", "ReversePrefixIterator":
+			default:
+				continue
+			}
+			full := p.storePrefix(x.E(storeV), nil, 0)
+			if keyV != nil {
+				full += p.ShapeExpr(x.E(keyV))
+			}
+			out = append(out, &StoreRead{Fn: fn, Ins: cs.Ins, Op: op, Full: full, Pos: cs.Ins.Pos()})
+		}
+	}
+	sort.Slice(out, func(i, j int) bool { return p.Pos(out[i].Pos) < p.Pos(out[j].Pos) })
+	storeReadsCache = out
+	return out
+}
